@@ -561,5 +561,6 @@ func main() {
 		Name:      "prune",
 		NewDriver: func() core.Driver { return &drv{} },
 		Recorders: map[string]core.Recorder{"default": record},
+		Extra:     map[string]func(*core.Env, []string) int{"memdb-probe": memdbProbe},
 	})
 }
